@@ -806,3 +806,54 @@ def run_stream_cell(ctx, fam, cell, given):
         viol("undocumented-source-kind-returned-something-else", f"{M.describe(got)}; the class method {M.describe(exp)}")
     else:
         ctx.nontrivial(key)
+
+
+# =================================================================================================
+# ENCODING cells - the same content by path, as text and through an open utf-8 stream
+# =================================================================================================
+def run_encoding_cells(ctx, fam, given):
+    """ml.load(path) / ml.load_all(path) against ml.loads(text) / ml.loads_all(text) of the same content and
+    against the class method on a stream opened with encoding='utf-8' - three ways to the same bytes"""
+    tag = getattr(fam, "sigtag", "")
+    n = 0
+    for fpath, ftext in (("load", "loads"), ("load_all", "loads_all")):
+        for fmt in ("xyz", "mol2"):
+            for otype in ("molecule", "Structure", "ensemble"):
+                if otype == "ensemble" and fpath == "load_all":
+                    continue
+                for kind in ("pathstr", "Path"):
+                    cell = {"op": "encoding", "func": fpath, "fmt": fmt, "kind": kind, "otype": otype}
+                    _one_encoding(ctx, fam, cell, ftext, tag)
+                    n += 1
+    ctx.count(states=n)
+
+
+def _one_encoding(ctx, fam, cell, ftext, tag):
+    fpath, fmt, otype = cell["func"], cell["fmt"], cell["otype"]
+    p = fam.path[fmt]
+    arg = str(p) if cell["kind"] == "pathstr" else Path(p)
+    case = {"family": list(fam.spec), "cell": cell, "given": None}
+    oa = M.otype_arg(otype)
+    by_path = M.outcome_of(lambda: getattr(ml, fpath)(arg, fmt, otype=oa))
+    by_text = M.outcome_of(lambda: getattr(ml, ftext)(fam.text[fmt], fmt, otype=oa))
+
+    def by_stream_thunk():
+        with open(p, "rt", encoding="utf-8") as f:
+            return getattr(M.otype_cls(otype), f"{fpath}_{fmt}")(f)
+
+    by_stream = M.outcome_of(by_stream_thunk)
+    ctx.count(evaluations=1, transitions=3, traces=1)
+    ctx.outcome(("encoding", by_path[0], by_path[1] if by_path[0] == "exc" else M.digest(M.snap(by_path[1]))))
+
+    def same(a, b):
+        if a[0] != b[0]:
+            return False
+        return a[1] == b[1] if a[0] == "exc" else M.snap(a[1]) == M.snap(b[1])
+
+    base = f"{fpath}|{fmt}|path|{M.oclass(otype)}{tag}"
+    if not same(by_path, by_stream):
+        ctx.violation(f"{base}:differs-from-class-method-on-utf8-stream", f"ml.{fpath}({cell['kind']}, {fmt!r}, otype={otype}): {M.describe(by_path)}; {otype}.{fpath}_{fmt}(open(path, encoding='utf-8')) {M.describe(by_stream)}", case)
+    elif not same(by_path, by_text):
+        ctx.violation(f"{base}:differs-from-{ftext}-of-the-same-content", f"ml.{fpath}(path): {M.describe(by_path)}; ml.{ftext}(text): {M.describe(by_text)}", case)
+    elif by_path[0] == "ok":
+        ctx.nontrivial((fam.name, tuple(sorted((k, str(v)) for k, v in cell.items()))))
